@@ -154,7 +154,7 @@ def lake_build(targets):
 def props_theorems(prop):
     """Names of all theorems in Props/<prop>.lean (fully qualified)."""
     path = os.path.join(LEAN, "OpmVerif", "Props", prop + ".lean")
-    txt = open(path).read()
+    txt = strip_lean_comments(open(path).read())
     ns = re.search(r"^namespace\s+(\S+)", txt, re.M)
     prefix = ns.group(1) + "." if ns else ""
     return [prefix + m.group(1) for m in re.finditer(r"^theorem\s+([A-Za-z_][\w.']*)", txt, re.M)]
